@@ -114,14 +114,22 @@ theorem accepts_timer {cfg : Cfg} {tr : TimedTrace} (hop : cfg.op = .timer) (h :
   · intro v hv; rw [hv] at this; exact this
   · intro c hc; rw [hc] at this; exact ⟨this.1, this.2.2⟩
 
-/-- RangeWithInterval: the k-th value is `a ± k`, not before k+1 periods, and there are at most |b-a| -/
+/-- RangeWithInterval / RangeWithStepAndInterval: the k-th value is `a ± k·step`, not before k+1 periods, and there are at most ⌈|b-a| / step⌉ -/
 theorem accepts_range {cfg : Cfg} {tr : TimedTrace} (hop : cfg.op = .rangeWithInterval) (h : accepts cfg tr = true)
     {k : Nat} {dl : Ev} (hk : tr.dels[k]? = some dl) (v : Int) (hv : dl.n = .next v) :
-    k < (cfg.b - cfg.a).natAbs ∧ v = (if cfg.a ≤ cfg.b then cfg.a + (k : Int) else cfg.a - (k : Int))
+    k < rangeCount cfg.a cfg.b cfg.step ∧ v = rangeVal cfg.a cfg.b cfg.step k
       ∧ tr.sub + (k + 1) * cfg.d ≤ dl.t0 := by
   have := accepts_at h hk
   simp only [OpAt, hop, RangeAt] at this
   rw [hv] at this; exact this
+
+/-- … and the completion comes after exactly ⌈|b-a| / step⌉ values, or after a cancellation -/
+theorem accepts_range_complete {cfg : Cfg} {tr : TimedTrace} (hop : cfg.op = .rangeWithInterval) (h : accepts cfg tr = true)
+    {k : Nat} {dl : Ev} (hk : tr.dels[k]? = some dl) (hc : dl.n = .complete) :
+    k = rangeCount cfg.a cfg.b cfg.step ∨ CancelledBy tr dl.t0 := by
+  have := accepts_at h hk
+  simp only [OpAt, hop, RangeAt] at this
+  rw [hc] at this; exact this
 
 /-- ThrottleTime: what passes comes from the source, later in the source than the previous pass, and
     a value passes no sooner than the window after the emission of the previous one that passed -/
